@@ -10,3 +10,6 @@ extern "C" void inst_oper1(Operators::Opers op, const Boxed_Value &l, Boxed_Valu
 extern "C" int inst_common_type(const Boxed_Value &l) {
   return static_cast<int>(Boxed_Number::get_common_type(l));
 }
+extern "C" int inst_to_operator(const char *p, unsigned long n, bool unary) {
+  return static_cast<int>(chaiscript::Operators::to_operator(std::string_view(p, n), unary));
+}
